@@ -6,6 +6,36 @@ package main
 func properties() []Property {
 	return []Property{
 		{
+			ID: "C15",
+			Harnesses: []Harness{
+				{Name: "H15a", Pkg: "yang", Fn: "H15a", Quick: map[string]int{"fdlo": 0, "fdhi": 18}, Reach: []string{"compared"}, MaxSteps: 2000000, TimeoutMs: 60000,
+					Bound:   "every pair of numbers of the domain: 64-bit magnitude x sign for integers, signed 64-bit mantissa for decimal64, every pair (fd1, fd2) in [0,18]^2 (full width, no size bound)",
+					Outside: "fraction-digits above 18 (not a YANG number)"},
+				{Name: "H15b", Pkg: "yang", Fn: "H15b", Reach: []string{"int-ok", "int-err"}, MaxSteps: 2000000,
+					Bound: "every 64-bit magnitude x sign; every decimal64 value for the decimal case", Outside: "nothing within Number's representation"},
+				{Name: "H15e", Pkg: "yang", Fn: "H15e", Reach: []string{"done"}, MaxSteps: 2000000,
+					Bound: "every int64 and every uint64", Outside: "FromFloat (floating point; in no property)"},
+				{Name: "H15c", Pkg: "yang", Fn: "H15c", Quick: map[string]int{"fdlo": 0, "fdhi": 18}, Reach: []string{"parsed-back"}, MaxSteps: 5000000, TimeoutMs: 60000,
+					Bound:   "every number of the domain at every fraction-digits 0..18 (all digit counts 1..20)",
+					Outside: "strconv.FormatUint is replaced by the engine's digit-chain intrinsic (its real body indexes a 200-byte table); ParseUint/ParseInt run from their real bodies"},
+				{Name: "H15d-int", Pkg: "yang", Fn: "H15d", Quick: map[string]int{"ialo": 1, "iahi": 21, "fblo": 0, "fbhi": 0, "asint": 1, "fdlo": 1, "fdhi": 1},
+					Reach: []string{"int-accepted", "int-rejected"}, MaxSteps: 5000000, TimeoutMs: 60000,
+					Bound: "every integer literal [sign] digits with 1..21 digits, every digit symbolic, no superfluous leading zero", Outside: "longer literals; non-decimal spellings (0x, 0o, _), which the quantifier excludes"},
+				{Name: "H15d-dec", Pkg: "yang", Fn: "H15d", Quick: map[string]int{"ialo": 1, "iahi": 20, "fblo": 0, "fbhi": 2, "asint": 0, "fdlo": 1, "fdhi": 2},
+					Thorough: map[string]int{"ialo": 1, "iahi": 20, "fblo": 0, "fbhi": 19, "asint": 0, "fdlo": 1, "fdhi": 18},
+					Reach:    []string{"dec-accepted", "dec-rejected"}, MaxSteps: 5000000, TimeoutMs: 60000,
+					Bound:    "every decimal literal [sign] digits [. digits] with ia integer digits, fb fraction digits (0 = no dot), requested precision fd, for the ranges given in params; every digit symbolic",
+					Outside:  "shapes outside the parameter ranges"},
+				{Name: "H15d-hifd", Pkg: "yang", Fn: "H15d", Quick: map[string]int{"ialo": 1, "iahi": 3, "fblo": 15, "fbhi": 19, "asint": 0, "fdlo": 16, "fdhi": 18},
+					Reach: []string{"dec-accepted", "dec-rejected"}, MaxSteps: 5000000, TimeoutMs: 60000,
+					Bound: "decimal literals with 1..3 integer digits, 15..19 fraction digits, requested precision 16..18", Outside: "shapes outside the parameter ranges"},
+				{Name: "H15d-long", Pkg: "yang", Fn: "H15d", Quick: map[string]int{"ialo": 1, "iahi": 1, "fblo": 254, "fbhi": 258, "asint": 0, "fdlo": 1, "fdhi": 18},
+					Reach: []string{"dec-rejected"}, MaxSteps: 20000000, TimeoutMs: 60000,
+					Bound: "fraction parts of 254..258 digits (the code narrows the fraction length to 8 bits: bound derived from the code), every requested precision 1..18", Outside: "other lengths above 19"},
+			},
+			Assumptions: []string{"strconv.FormatUint replaced by a digit-chain intrinsic (symDecimal) when its argument is symbolic"},
+		},
+		{
 			ID: "C20",
 			Harnesses: []Harness{
 				{Name: "H20a", Pkg: "indent", Fn: "H20a", Quick: map[string]int{"n": 4, "p": 2}, Thorough: map[string]int{"n": 6, "p": 2},
